@@ -92,6 +92,11 @@ def gen_files(rng, dotted=False):
         p = f"{d}{name}.py"
         if p not in paths:
             paths.append(p)
+    if layout != "flat" and rng.random() < 0.4:
+        # a module next to the package directory of the same name (pkg.py beside pkg/...): '.' sorts before '/', whereas
+        # a Path-wise or module-wise comparison puts the directory's files first
+        for top in sorted({p.split("/")[0] for p in paths if "/" in p}):
+            paths.append(f"{top}.py")
     if rng.random() < 0.15:
         paths.append(rng.choice(["__init__.py", "setup.py", "a_test.py", "pkg/__init__.py"]))
     if rng.random() < 0.05:
@@ -671,8 +676,17 @@ def fixed_dirs():
 
 # ------------------------------------------------------------------------------- stream (b)
 
+SORT_SENSITIVE = ["g.py", "g/s.py", "g/t.py", "g-x.py", "g_x.py", "G.py", "g/s/u.py", "g0.py", "g.v2.py", "g/s.py.py", "g/-.py",
+                  "g/s-1.py", "g/s/0.py", "ga.py", "g/S.py"]
+
+
 def rand_graph(rng, n, p_edge, dangling=0.1):
     nodes = [f"n{i:03d}.py" if rng.random() < 0.7 else f"pk/{chr(97 + i % 26)}{i}.py" for i in range(n)]
+    if n <= 8 and rng.random() < 0.35:
+        # paths whose order as strings is not their order as Path objects or as module names: a module next to a
+        # package directory of the same name, characters around '/' and '.' ('-' < '.' < '/' < '0' < 'A' < '_' < 'a')
+        # (seed C11-k: closures ordered by the rank of the programs in the listing of list_programs, which sorts Paths)
+        nodes = rng.sample(SORT_SENSITIVE, min(n, len(SORT_SENSITIVE)))
     nodes = list(dict.fromkeys(nodes))
     d = {}
     for u in nodes:
